@@ -122,6 +122,28 @@ CHECKS = {
              'parse_unambiguous. Tied to /repo each run by ~130 cases (1-4 files, 1-4 fields incl. repeated, 1-D and (N,3)/(N,5) columns, widths 1-8, empty columns, blsc and uncompressed, missing file/field in the k-th position, tty pipe) compared byte for byte, plus the CLI in a subprocess; oracle = struct.pack + tobytes.',
         note='Trusted: asdf, the blosc stand-in, a little-endian host; one item width per field assumed; 0-d columns and an empty file list are outside the quantifier (modelled, not generated).',
         design='§7 C20'),
+    'C01': dict(
+        technique='Lean 4 proof (closed form of the staged reader model by induction over superslabs and rows, C19 cumsum model reused) + correspondence of the compiled model driver with CompaSOHaloCatalog on synthetic catalog trees, word for word, + truth oracle',
+        text='Under the decidable well-formedness wf (ranges of kept, not-cleaned-away halos inside their particle file, merge ranges inside the cleaning file; shown satisfiable): load_spec, slices_correct (for every row and loaded subsample the slice npstart:npstart+npout is exactly '
+             'that halo original particles — none if cleaned away — followed by its merged particles), tiling (contiguous, A before B, lengths sum to the table, every cell written exactly once), decode_commutes, lc_slices, zipper_inbounds, on a model that mirrors the reader stage by stage '
+             '(per-file compaction, N_halo_per_file, zeroing of cleaned-away counts, cumsum offsets carried from A into B, per-halo zipper with numba clipped-slice semantics, replacement of the index columns). Tied to /repo on every run by ~107 real loads over catgen trees '
+             '(1-4 superslabs, 0-6 halos incl. empty slabs, cleaned on/off, A/B/both, pos/vel/pid/rvint/packedpid subsets, unpack_bits, passthrough, dir / halo_info / file / list paths, filters, light cones, truncated files), table compared word for word; an oracle slices the returned table by the returned npstart/npout and compares with the particles catgen wrote.',
+        note='Trusted: catgen arrays as the raw records, asdf/astropy, bitpacked decoders (C04) for unpacked columns, numba slice semantics as modelled; NUMBA_BOUNDSCHECK=1. uint32 overflow of npout + merge out of scope.',
+        design='§7 C01'),
+    'C03': dict(
+        technique='Lean 4 proofs over the C01 model (load_append, load_filter via closed forms; decision model of _setup_file_paths) + metamorphic real-vs-real glue/mask oracle + model correspondence + path-decision correspondence',
+        text='load_append (loading s1 ++ s2 = gluing the two loads: rows concatenated, particle slices re-based by the A and B totals), load_filter (a filtered load = applying the mask to the unfiltered load and re-indexing contiguously), load_filter_none, load_filter_nothing '
+             '(all-false masks: empty tables — the cumsum N = 0 path), filter_sees_N (cleaned, non-passthrough: the filter sees the cleaned count as N), paths_spec / paths_mixed_first (duplicates and foreign files rejected, superslab index from the file name). '
+             'Tied to /repo each run by ~99 real loads (subsets and orders of files vs per-file loads glued by the harness; masks all/nothing/random/parity/N-threshold drawn per superslab, recording which N the filter saw; light cones with filters) and 150 _setup_file_paths calls; every combined load also goes through the C01 truth oracle and model.',
+        note='Trusted as C01; the Lean glue/applyMask definitions are tied to the code only through the theorems and the shared load (the harness has its own Python glue/mask as oracle); int() modelled for decimal tokens.',
+        design='§7 C03'),
+    'C08': dict(
+        technique='Lean 4 proofs (two-pointer loop invariant, Hermitian re-indexing, conjugation-symmetric sum re-indexing, fiberwise thread sums, decide +kernel Legendre table) over an executable contribution-list model of bin_kmu / bin_kppi / P_n; differential correspondence with the compiled kernels (plain, NUMBA_BOUNDSCHECK=1 sub-process, py_func) and calc_pk_from_deltak; independent full-mesh fftfreq brute-force oracle',
+        text='fold_is_fftfreq, hermitian_reindex, lead_is_least, kmu/kppi_search_inbounds, thread_independent, kmu_counts_exact / kppi_counts_exact (counts[b][m] = number of modes of the FULL n^3 fftfreq mesh classified to the bin, every n >= 1 odd or even, every edge list), kmu_means / kppi_means / kmu_pole_means '
+             '(reported power, k_avg and (2l+1)-weighted poles are means over exactly those modes for conjugation-symmetric meshes), monopole_is_mu_average, legendre_table, Pn_zero/two/four. Tied to /repo on every run on all n <= 12 (24 thorough) x float32/float64 x 10 k-edge families '
+             '(below/at/above Nyquist and the diagonal, log, ties on attained |k|^2) x mu / pi / pole / thread variants: counts exactly, means within stated bounds; a brute-force oracle over the full mesh decides violations; every case first runs in a bounds-checked sub-process. Detects the four repaired defects on 5f669f3.',
+        note='Trusted: Lean kernel, harness and oracle, numba bounds checking; float rounding of mu^2 and edge squares and fastmath summation order (stated tolerances, tie nudging counted in the evidence); odd multipoles not modelled; prange as an arbitrary row-to-thread assignment.',
+        design='§7 C08'),
 }
 
 NOT_YET = {}
